@@ -372,7 +372,7 @@ class SubshellE2E(Suite):
 
         trace = []
         old = signal.signal(signal.SIGALRM, on_alarm)
-        signal.alarm(90)
+        signal.alarm(300)
         try:
             with sc.quiet_log():
                 try:
